@@ -1145,12 +1145,18 @@ where
         // Drop the most significant bits up to the desired length, but make sure
         // they encode 0.
         let nb_bits = nb_bits.unwrap_or(K::NUM_BITS as usize);
+        // More bits than available may be requested (e.g. a whole number of
+        // bytes): the extra ones are zero.
+        if nb_bits > bits.len() {
+            let zero: AssignedBit<F> = self.native_gadget.assign_fixed(layouter, false)?;
+            bits.resize(nb_bits, zero);
+        }
         bits[nb_bits..]
             .iter()
             .try_for_each(|byte| self.native_gadget.assert_equal_to_fixed(layouter, byte, false))?;
         let bits = bits[0..nb_bits].to_vec();
         if enforce_canonical && nb_bits >= K::NUM_BITS as usize {
-            let canonical = self.is_canonical(layouter, &bits)?;
+            let canonical = self.is_canonical(layouter, &bits[..K::NUM_BITS as usize])?;
             self.assert_equal_to_fixed(layouter, &canonical, true)?;
         }
         Ok(bits)
